@@ -3,7 +3,7 @@ import io
 from .. import posecase as pc, refenc
 from .c01 import impl_roundtrip, boundary_cases
 
-RULE = ("representable poses from the C01 generator; writer direction: implementation bytes vs the Lean model's bytes vs an independent Python encoder written from docs/specs/v0.2.md "
+RULE = ("representable poses from the C01 generator, body arrays in five memory layouts; writer direction: implementation bytes vs the Lean model's bytes vs an independent Python encoder written from docs/specs/v0.2.md "
         "(harness/refenc.py); reader direction: the reference-encoded file is read by the implementation and compared field by field with the encoded content, then re-written and "
         "compared byte for byte; non-trivial = representable, ≥1 component, distinct by canonical JSON")
 ASSUMPTIONS = ["the two reference encoders (Lean specFile/Pose.write? and harness/refenc.py) are written from docs/specs, independently of pose_format"]
@@ -37,7 +37,9 @@ def run(ctx):
         if not mw["ok"] or mw["hex"] != ref.hex():
             raise RuntimeError("reference encoders disagree: " + str(slim)[:500])
         # writer direction
-        w, r = impl_roundtrip(case)
+        layout = rng.choice(["C", "C", "F", "T", "R", "S"])            # memory layout of the arrays handed to the writer: the file's order is the index order, whatever the memory order
+        ctx.count("layout:" + layout)
+        w, r = impl_roundtrip(case, layout=layout)
         if w[0] != "ok":
             ctx.violation("writer refuses a representable pose", slim, {"error": w[1]}, False, size=size)
         elif w[1] != ref:
